@@ -14,7 +14,7 @@ def run(tier):
     violations = [{"kind": "broken-proof-obligation", "what": b, "no_failing_input": True, "input": b} for b in po["broken"]]
     import gen
     pinned = set(gen.discount_corpus() + ["DUP3 MLOAD DUP4 MULMOD SWAP2", "DUP3 MLOAD DUP4 ADDMOD SWAP2", "DUP2 MLOAD DUP3 MULMOD"])
-    res = c02.collect(tier, sd + 2000, rng, greedy=True, extra=gen.discount_corpus() + ["DUP3 MLOAD DUP4 MULMOD SWAP2", "DUP3 MLOAD DUP4 ADDMOD SWAP2", "DUP2 MLOAD DUP3 MULMOD"])
+    res = c02.collect(tier, sd + 2000, rng, greedy=True, extra=gen.discount_corpus() + gen.forwarding_corpus() + ["DUP3 MLOAD DUP4 MULMOD SWAP2", "DUP3 MLOAD DUP4 ADDMOD SWAP2", "DUP2 MLOAD DUP3 MULMOD"])
     c = Counter()
     reqs, meta = [], []
     for t, r, st in res:
